@@ -1,5 +1,7 @@
 import Rangers.Proofs.GroupChainCrash
 import Rangers.Proofs.GroupChainMirror
+import Rangers.Proofs.GroupChainSql
+import Rangers.Proofs.GroupChainFork
 /-!
 Property C19 — the group chain is a gap-free linked list whose height index matches it.
 
@@ -418,5 +420,189 @@ theorem write_fault_counterexample : ¬ FullStatementWriteFault := by
 /-- A fault index beyond the operation's writes changes nothing. -/
 theorem write_fault_beyond (c : Chain) (g : Group) (j : Nat) :
     saveF c g (some (j + 2)) = (save c g, false, some j) := rfl
+
+/-! ## J. Faults of the other store: a failing statement on the sqlite `groupIndex`
+
+`save`/`remove` run their sqlite statement after the LevelDB writes and the memory update and `panic`
+when it fails (`saveS`, `removeS`, `rmToS`; tied by the `sqlfault` ops, which make the real statement
+fail through a trigger on the node's own logs.db). The chain itself is never damaged: -/
+
+/-- A failing insert cuts `AddGroup` after a complete `save`: the chain represents the extended list
+    (only the mirror row is missing; `refreshCache` re-inserts it at the next start-up). -/
+theorem sql_fault_add_keeps_rep {l : List Group} {c : Chain} (r : Rep l c) (g : Group) (f : SqlFault)
+    (hb : l.length + 1 < lenBound) (hid : IdOK g.id) (hok : addCheck c g = .ok) :
+    (addGroupS c g f).1 = .ok ∧ Rep (l ++ [stamped l.length g]) (addGroupS c g f).2.1 := by
+  have h2 := (rep_add r g hb hid hok).2
+  obtain ⟨e1, e2, e3⟩ := saveS_core c g f
+  refine ⟨by simp [addGroupS, hok], ?_⟩
+  have : (addGroupS c g f).2.1 = (saveS c g f).1 := by simp [addGroupS, hok]
+  rw [this]
+  exact h2.congr e1 e2 e3
+
+/-- A failing delete during a fork switch cuts it after a complete removal: whatever group's
+    statement fails, the chain ends representing a non-empty prefix of the old list (and start-up
+    reads that back). The removal loop never tears the chain. -/
+theorem sql_fault_rmto_keeps_rep {l : List Group} {c : Chain} (r : Rep l c) (h : Nat) (f : SqlFault)
+    (gen : List Group) :
+    ∃ n c', 0 < n ∧ n ≤ l.length ∧ Rep (l.take n) (rmToS c h f).1 ∧
+      restart (rmToS c h f).1.disk (rmToS c h f).1.mirror gen = some (.alive c') ∧ Rep (l.take n) c' := by
+  obtain ⟨n, h0, h1, r'⟩ := rep_rmToS r h f
+  obtain ⟨c', e, _, _, _, r''⟩ := rep_restart r' (rmToS c h f).1.mirror gen
+  exact ⟨n, c', h0, h1, r', e, r''⟩
+
+/-- Without a fault for any group on the chain the faulted loop is the ordinary one. -/
+example : (rmToS c2 0 { kind := .del, id := [0xee] }).1 = rmTo c2 0 := by decide
+
+/-- With the fault on the top group the switch is cut after that removal (panic), one group short. -/
+example : (rmToS c2 0 { kind := .del, id := gA.id }).2 = true ∧ (rmToS c2 0 { kind := .del, id := gA.id }).1.count = 1 := by decide
+
+/-! ## K. Which groups are working at a block height (`availableGroupsAt`, `GetAvailableGroupsByMinerId`) -/
+
+/-- The selection rule, exactly: newest first, groups with `DismissHeight > h`; at the first group
+    that is not, the genesis group `l[0]` is appended and the walk stops. -/
+theorem available_groups_rule {l : List Group} {c : Chain} (r : Rep l c) (h : Nat) :
+    availableAt c h = availOf l.head? h l.reverse := availableAt_rep r h
+
+/-- Every group it returns is on the chain (a listed group that is still working, or the genesis
+    group), never nil — so `GetAvailableGroupsByMinerId` does not dereference nil. -/
+theorem available_groups_listed {l : List Group} {c : Chain} (r : Rep l c) (h : Nat) :
+    ∀ og ∈ availableAt c h, ∃ g, og = some g ∧ g ∈ l := by
+  intro og hog
+  rw [availableAt_rep r h] at hog
+  have hne := r.ne
+  rcases availOf_mem l.head? h l.reverse og hog with e | ⟨g, e1, e2, _⟩
+  · cases l with
+    | nil => exact absurd rfl hne
+    | cons a t => exact ⟨a, by simpa using e, by simp⟩
+  · exact ⟨g, e1, by simpa using e2⟩
+
+/-- While every listed group is still working the answer is the whole chain, newest first. -/
+theorem available_all_when_working {l : List Group} {c : Chain} (r : Rep l c) (h : Nat)
+    (hall : ∀ g ∈ l, g.dismiss > h) : availableAt c h = l.reverse.map some := by
+  rw [availableAt_rep r h]
+  exact availOf_all _ h l.reverse (fun g hg => hall g (by simpa using hg))
+
+/-- "Returns every listed group that is still working at `h`." -/
+def FullStatementAvailableComplete : Prop :=
+  ∀ (l : List Group) (c : Chain) (h : Nat) (g : Group), Rep l c → g ∈ l → g.dismiss > h →
+    some g ∈ availableAt c h
+
+def gOld : Group := { id := [0xa1], pre := [0x90, 0x01], parent := [0x90, 0x01], height := 7777, create := 1, dismiss := 1000 }
+def gNew : Group := { id := [0xb1, 0xb2], pre := [0xa1], parent := [0x90, 0x01], height := 7777, create := 2, dismiss := 50 }
+def c3 : Chain := save (save c1 gOld) gNew
+
+theorem rep_c3 : Rep [g0, stamped 1 gOld, stamped 2 gNew] c3 := by
+  have r2 := (rep_add rep_c1 gOld (by simp [lenBound]) (by simp [IdOK, gOld, cntKey]) (by decide)).2
+  have r3 := (rep_add r2 gNew (by simp [lenBound]) (by simp [IdOK, gNew, cntKey]) (by decide)).2
+  unfold c3
+  simpa using r3
+
+/-- False (documented quirk, replayed in corpus/C19/08): the walk stops at the FIRST group that has
+    been dismissed, so an older group that is still working is not returned when a newer one was
+    dismissed earlier. Cannot happen when dismiss heights grow along the chain (`AddGroup` sets them
+    to `CreateHeight + duration`, and consensus creates groups at increasing heights). -/
+theorem available_complete_counterexample : ¬ FullStatementAvailableComplete := by
+  intro h
+  have := h _ c3 100 (stamped 1 gOld) rep_c3 (by simp) (by decide)
+  revert this
+  decide
+
+/-! ## L. The fork switch (`groupChainFork.triggerOnChain`): remove down to the ancestor, add the fork's groups -/
+
+/-- The whole switch refines "cut the list after the ancestor, then append the accepted fork groups":
+    the chain represents `specAddAll …` of the cut list, the part up to the ancestor is untouched,
+    and `triggerOnChain` reports success only if every fork group was appended — "remove followed by
+    adding different groups at the same heights", for any number of heights. -/
+theorem inv_fork_switch {l : List Group} {c : Chain} (r : Rep l c) (dur h : Nat) (gs : List Group)
+    (hid : ∀ g ∈ gs, IdOK g.id) (hb : l.length + gs.length < lenBound) :
+    Rep (specAddAll dur gs (l.take (h + 1)) (rmTo c h)) (forkSwitch dur c h gs).1 ∧
+      l.take (h + 1) <+: specAddAll dur gs (l.take (h + 1)) (rmTo c h) ∧
+      ((forkSwitch dur c h gs).2 = true →
+        (specAddAll dur gs (l.take (h + 1)) (rmTo c h)).length = (l.take (h + 1)).length + gs.length) := by
+  have r1 := rep_rmTo r h
+  refine ⟨?_, specAddAll_prefix dur gs _ _, fun hf => addAll_true_len dur gs _ _ hf⟩
+  exact rep_addAll dur gs _ _ r1 hid (by
+    have : (l.take (h + 1)).length ≤ l.length := by simp [List.length_take]; omega
+    omega)
+
+/-- After a successful switch the new groups sit at the heights right above the ancestor. -/
+example : (forkSwitch 10 c3 0 [{ gOld with id := [0xd4], pre := [0x90, 0x01] }]).2 = true ∧
+    ((getGroupByHeight (forkSwitch 10 c3 0 [{ gOld with id := [0xd4], pre := [0x90, 0x01] }]).1.disk 1).map (·.id)) = some [0xd4] ∧
+    getGroupByHeight (forkSwitch 10 c3 0 [{ gOld with id := [0xd4], pre := [0x90, 0x01] }]).1.disk 2 = none := by decide
+
+/-! ## M. The hypotheses are needed (the code itself does not check them)
+
+`AddGroup` accepts any byte string as a group id (the consensus `CheckGroup` is what restricts ids to
+32-byte group ids) and `initGroupChain` saves whatever genesis list it is handed. Both hypotheses of
+part B are necessary; the witnesses are replayed against the real code in the malformed stream. -/
+
+def FullStatementAddAnyId : Prop :=
+  ∀ (l : List Group) (c : Chain) (g : Group), Rep l c → l.length + 1 < lenBound → addCheck c g = .ok →
+    Rep (l ++ [stamped l.length g]) (save c g)
+
+/-- A group whose id is the 8-byte key of the height slot it lands in. -/
+def gSlot : Group := { id := hkey 1, pre := [0x90, 0x01], parent := [0x90, 0x01], height := 7777, create := 1 }
+
+/-- Without `IdOK`: `save` writes the height slot over the group's own JSON (same key), so the
+    "listed group retrievable by id" clause fails at once (`[boot 9001; add 0000000000000001 9001 9001 1]`). -/
+theorem idok_needed_counterexample : ¬ FullStatementAddAnyId := by
+  intro h
+  have r := h [g0] c1 gSlot rep_c1 (by simp [lenBound]) (by decide)
+  have h1 := r.stored (stamped 1 gSlot) (by simp)
+  have e : sget (save c1 gSlot).disk (stamped 1 gSlot).id = some (.ref (hkey 1)) := by decide
+  rw [e] at h1
+  cases h1
+
+def FullStatementInitAnyGenesis : Prop :=
+  ∀ (gs : List Group) (c : Chain), gs ≠ [] → restart [] [] gs = some (.alive c) → ∃ l, Rep l c
+
+/-- A second genesis group that does not name the first as its predecessor. -/
+def g0b : Group := { id := [0x91, 0x01], pre := [], parent := [0x91, 0x01], height := 0, create := 1 }
+
+/-- Without the linking hypothesis of `GenesisOK`: two unlinked genesis groups give `Count()=2` over a
+    one-group list (`[boot 9001,-,9001,0 9101,-,9101,1]`). -/
+theorem genesis_linking_needed_counterexample : ¬ FullStatementInitAnyGenesis := by
+  intro h
+  obtain ⟨l, r⟩ := h [g0, g0b] ([g0, g0b].foldl save { disk := [], count := 0, last := g0, mirror := [] })
+    (by simp) (by decide)
+  have := rep_count_eq_iter r
+  revert this
+  decide
+
+/-- A well-formed fork is adopted completely: ids proper, distinct and not stored after the cut,
+    parents stored, predecessor links starting at the ancestor — then `triggerOnChain` succeeds and
+    the chain is exactly the old list up to the ancestor followed by the fork's groups (with
+    `AddGroup`'s header rewrite and their new heights). -/
+theorem inv_fork_switch_wellformed {l : List Group} {c : Chain} (r : Rep l c) (dur h : Nat) (gs : List Group)
+    (hid : ∀ g ∈ gs, IdOK g.id ∧ IdOK g.parent) (hnd : (gs.map (·.id)).Nodup)
+    (hfr : ∀ g ∈ gs, shas (rmTo c h).disk g.id = false)
+    (hpar : ∀ g ∈ gs, shas (rmTo c h).disk g.parent = true)
+    (hlk : Linked (rmTo c h).last.id gs) (hb : l.length + gs.length < lenBound) :
+    (forkSwitch dur c h gs).2 = true ∧
+      Rep (l.take (h + 1) ++ stampFrom (l.take (h + 1)).length (gs.map (prepare dur))) (forkSwitch dur c h gs).1 := by
+  have r1 := rep_rmTo r h
+  have hb' : (l.take (h + 1)).length + gs.length < lenBound := by
+    have : (l.take (h + 1)).length ≤ l.length := by simp [List.length_take]; omega
+    omega
+  obtain ⟨e1, e2⟩ := addAll_wellformed dur gs _ _ r1 hid hnd hfr hpar hlk hb'
+  refine ⟨e1, ?_⟩
+  rw [← e2]
+  exact rep_addAll dur gs _ _ r1 (fun g hg => (hid g hg).1) hb'
+
+/-- `GetAvailableGroupsByMinerId` never meets a nil group on a chain that represents a list, and
+    returns only listed groups that have the miner as a member. -/
+theorem available_by_miner_total {l : List Group} {c : Chain} (r : Rep l c) (h : Nat) (m : Bytes) :
+    ∃ res, availableByMiner c h m = some res ∧ ∀ g ∈ res, g ∈ l ∧ m ∈ g.members := by
+  obtain ⟨res, e, hr⟩ := minerFold_some m (availableAt c h) (fun og hog => by
+    obtain ⟨g, e, _⟩ := available_groups_listed r h og hog
+    exact ⟨g, e⟩)
+  refine ⟨res, by rw [availableByMiner_eq]; exact e, ?_⟩
+  intro g hg
+  obtain ⟨h1, h2⟩ := hr g hg
+  obtain ⟨g', e', hm⟩ := available_groups_listed r h (some g) h1
+  cases e'
+  exact ⟨hm, h2⟩
+
+example : availableByMiner c3 100 [0xe1] = some [] := by decide
 
 end Rangers.Props.C19
